@@ -210,4 +210,96 @@ theorem step_startMerge (s : Sys) (a : Abs) (ids : List Nat) (hI : Inv s) (hR : 
           exact key
         · simpa [hc] using hI
 
+theorem startMergeExplicit_st (s : Sys) (ids : List Nat) : (s.step (.startMergeExplicit ids)).st = s.st := by
+  unfold Sys.step
+  cases s.running with
+  | some r => rfl
+  | none =>
+    simp only
+    split
+    · rfl
+    · split
+      · rfl
+      · split <;> rfl
+
+/-- an explicit `IndexWriter::merge`: target = commit opstamp for BOTH registers. For uncommitted
+sources the step is covered under `ExplicitOk` (all sources at one cursor position). -/
+theorem step_startMergeExplicit (s : Sys) (a : Abs) (ids : List Nat) (hI : Inv s) (hR : Rel s a)
+    (hok : ExplicitOk s (.startMergeExplicit ids)) :
+    Inv (s.step (.startMergeExplicit ids)) ∧
+      Rel (s.step (.startMergeExplicit ids)) (a.step (.startMergeExplicit ids)) := by
+  refine ⟨?_, by unfold Rel; rw [startMergeExplicit_st]; exact hR⟩
+  unfold Sys.step
+  cases hrun : s.running with
+  | some r => simpa [hrun] using hI
+  | none =>
+    simp only
+    by_cases hnil : ids = []
+    · simpa [hnil] using hI
+    · simp only [hnil, if_false]
+      by_cases hu : containsAll s.st.uncommitted ids = true
+      · simp only [hu, if_true]
+        have hfil : s.st.uncommitted.filter (inSources ids)
+            = (s.st.uncommitted ++ s.st.committed).filter (inSources ids) := by
+          rw [List.filter_append, filter_other_nil _ _ ids hI.ids hu, List.append_nil]
+        have hcont : containsAll (s.st.uncommitted ++ s.st.committed) ids = true :=
+          containsAll_mono _ _ _ (fun e he => List.mem_append_left _ he) hu
+        obtain ⟨c0, hc0⟩ := hok hrun hnil hu
+        have hsame : SameCursor s.st.queue (s.st.uncommitted.filter (inSources ids))
+            s.st.committedOpstamp c0 := hc0
+        -- some source exists, so `c0` is a cursor inside the queue
+        obtain ⟨i, rest, hids⟩ : ∃ i rest, ids = i :: rest := by
+          cases ids with
+          | nil => exact absurd rfl hnil
+          | cons i rest => exact ⟨i, rest, rfl⟩
+        obtain ⟨e0, he0, heq0⟩ := (containsAll_iff _ _).1 hu i (by rw [hids]; simp)
+        have he0f : e0 ∈ s.st.uncommitted.filter (inSources ids) :=
+          List.mem_filter.2 ⟨he0, (inSources_iff _ _).2 (by rw [heq0, hids]; simp)⟩
+        have hc0le : c0 ≤ s.st.queue.length := by
+          rw [← hc0 e0 he0f]
+          exact advance_cursor_le _ _ _ (hI.wf e0 (List.mem_append_left _ he0)).2.1
+        have key := inv_with_running s hI hrun ids hnil _ s.st.committedOpstamp c0 0 hfil hcont hsame
+          hc0le (Nat.le_of_lt hI.c_lt)
+          (fun hc => by rw [containsAll_not_both _ _ ids hnil hI.ids hu] at hc; cases hc)
+        exact key
+      · simp only [hu, if_false]
+        by_cases hc : containsAll s.st.committed ids = true
+        · simp only [hc, if_true]
+          have hfil : s.st.committed.filter (inSources ids)
+              = (s.st.uncommitted ++ s.st.committed).filter (inSources ids) := by
+            rw [List.filter_append, filter_other_nil' _ _ ids hI.ids hc, List.nil_append]
+          have hcont : containsAll (s.st.uncommitted ++ s.st.committed) ids = true :=
+            containsAll_mono _ _ _ (fun e he => List.mem_append_right _ he) hc
+          obtain ⟨i, rest, rfl⟩ : ∃ i rest, ids = i :: rest := by
+            cases ids with
+            | nil => exact absurd rfl hnil
+            | cons i rest => exact ⟨i, rest, rfl⟩
+          obtain ⟨e0, he0, _⟩ := (containsAll_iff _ _).1 hc i (by simp)
+          have hadv : ∀ e ∈ s.st.committed, advance s.st.queue e s.st.committedOpstamp = e :=
+            fun e he => advance_of_consumed_nil _ _ _ (hI.comD1 e he)
+          have hsame : SameCursor s.st.queue (s.st.committed.filter (inSources (i :: rest)))
+              s.st.committedOpstamp e0.cursor := by
+            intro e he
+            have hm := (List.mem_filter.1 he).1
+            rw [hadv e hm]
+            exact hI.comD2 e hm e0 he0
+          have hwfs : ∀ e ∈ s.st.committed.filter (inSources (i :: rest)), e.docs.length = e.alive.length :=
+            fun e he => (hI.wf e (List.mem_append_right _ (List.mem_filter.1 he).1)).1
+          have key := inv_with_running s hI hrun (i :: rest) hnil _ s.st.committedOpstamp e0.cursor 0
+            hfil hcont hsame (hI.wf e0 (List.mem_append_right _ he0)).2.1 (Nat.le_of_lt hI.c_lt)
+            (fun _ => by
+              constructor
+              · rw [start_pub _ _ _ _ e0.cursor s.st.committedOpstamp hwfs hsame (Nat.le_refl _)]
+                congr 1
+                apply List.map_congr_left
+                intro e he
+                rw [hadv e (List.mem_filter.1 he).1]
+              · intro m hm e he
+                simp only [Option.mem_toList] at hm
+                rw [advance_cursor, mergeEntries_some_cursor _ _ _ _ e0.cursor m hm hsame,
+                  hI.comD1 e0 he0]
+                exact hI.comD2 e0 he0 e he)
+          exact key
+        · simpa [hc] using hI
+
 end TantivyModel.Merge
